@@ -239,6 +239,9 @@ def make_programs(pid, tier, rng):
         progs += c16_loader_programs(rng, thorough)
     if pid == "C07":
         progs += c07_growth_programs(rng, thorough)
+    if pid in ("C14", "C07"):
+        # histories generated by TLC from the specification itself (spec -> impl direction)
+        progs += tlc_programs(pid, 1500 if thorough else 250, vlib.seed() + int(pid[1:]))
     # one probe per kind that is only usable after load (recorded finding): queries on the built object
     if pid in ("C01", "C07"):
         for kind in G.SAVE_ONLY_WHEN_BUILT:
@@ -329,6 +332,65 @@ def c14_programs(kind, par, name, S, rng, thorough):
                 p.lines += ["%s %d %d" % ("ID" if o in ("LP", "LS") else "SD", it, len(S) + 2), "CI %d" % it]
             p.lines += before
             progs.append(p)
+    return progs
+
+
+def tlc_programs(focus, n, seed, depth=24):
+    """spec -> impl: random behaviours of the API specification (CSDGen.tla, `tlc -simulate`) turned into
+    driver programs.  Every program is a behaviour of the specification, hence well formed."""
+    cfg = os.path.join(vlib.CACHE, "cfg", "csdgen_%s.cfg" % focus)
+    os.makedirs(os.path.dirname(cfg), exist_ok=True)
+    open(cfg, "w").write(open(os.path.join(vlib.SPEC, "CSDGen.cfg")).read().replace("Depth = 24", "Depth = %d" % depth))
+    r = vlib.tlc("CSDGen", cfg, workers=4, simulate=max(50, n // 2), depth=depth + 6, seed_=seed, timeout=900, java_opts=["-Xmx4g"])
+    if vlib.tlc_model_failure(r):
+        raise RuntimeError("CSDGen failed rc=%s" % r.rc)
+    hists, seen = [], set()
+    for line in r.out.split("\n"):
+        if not line.startswith('<<"HIST"'):
+            continue
+        m = _bad_re.match(line.replace('<<"HIST"', '<<"BAD"', 1))
+        if not m:
+            continue
+        h = json.loads(m.group(1).replace('\\"', '"'))
+        key = json.dumps(h[:depth - 3])
+        if key in seen:
+            continue                 # walks that differ only in their last steps: keep one
+        seen.add(key)
+        hists.append(h)
+    rnd = random.Random(seed)
+    rnd.shuffle(hists)
+    progs = []
+    for hi, h in enumerate(hists[:n]):
+        kinds = sorted({e["kind"] for e in h if e["op"] == "B"})
+        p = G.Prog("%s|%s|-|tlc%d|tlchist|mixed" % (focus, "+".join(kinds) or "none", hi))
+        st = 0
+        for e in h:
+            o = e["op"]
+            if o == "B":
+                p.lines.append(G.build_line(e["h"], e["kind"], e["par"], [bytes(x) for x in e["S"]]))
+            elif o in ("N", "M", "D"):
+                p.lines.append("%s %d" % (o, e["h"]))
+            elif o == "S":
+                p.lines.append("S %d %d" % (e["h"], e["img"]))
+            elif o == "L":
+                p.lines.append("L %d %s" % (e["h"], G.hx(bytes(e["q"]))))
+            elif o in ("E", "LR", "ER"):
+                p.lines.append("%s %d %d" % (o, e["h"], e["i"]))
+            elif o in ("LP", "EP", "LS", "ES"):
+                p.lines.append("%s %d %d %s" % (o, e["h"], e["it"], G.hx(bytes(e["q"]))))
+            elif o == "ET":
+                p.lines.append("ET %d %d" % (e["h"], e["it"]))
+            elif o == "HN":
+                p.lines.append("%s %d" % ("IH" if e["type"] == "id" else "SH", e["it"]))
+            elif o == "NX":
+                p.lines.append("%s %d" % ("IN" if e["type"] == "id" else "SN", e["it"]))
+            elif o == "CI":
+                p.lines.append("CI %d" % e["it"])
+            elif o in ("LG", "LK"):
+                st += 1
+                p.lines.append("CAT %d %d" % (st, e["img"]))
+                p.lines.append("LG %d %d %d" % (st, e["h"], e["opt"]) if o == "LG" else "LK %s %d %d %d" % (e["kind"], st, e["h"], e["opt"]))
+        progs.append(p)
     return progs
 
 
@@ -436,6 +498,9 @@ def relevant(pid, b, focus_faults=True):
     """is BAD record b a rejection for property pid?"""
     if b["p"] == pid:
         return True
+    # a member that is not found / not returned also breaks the rank numbering of an order-preserving kind
+    if pid == "C03" and b["p"] == "C01" and (b.get("kind") in G.ORDERED or prog_fields(b["prog"])["kind"] in G.ORDERED):
+        return True
     if b["p"] == "HARNESS":
         raise RuntimeError("harness produced an input outside the validity domain: %s" % b)
     if b["ev"] in ("crash", "timeout"):
@@ -471,7 +536,34 @@ def design_run(pid, tier):
         r["distinct"] = (r.distinct or 0) + (f.distinct or 0)
         r["generated"] = (r.generated or 0) + (f.generated or 0)
         r["frontcoding_states"] = f.distinct
+    if pid in ("C01", "C02", "C12"):
+        # mechanism model of the hash kinds: double-hash probing with arbitrary hash functions
+        h = vlib.tlc("HashProbe", "HashProbe.cfg" if tier == "quick" else "HashProbe3.cfg", workers=8, timeout=3000, java_opts=["-Xmx12g"])
+        if h.rc != 0:
+            raise RuntimeError("HashProbe.tla failed: rc=%s violated=%s" % (h.rc, h.violated))
+        hp = vlib.tlc("HashProbe", "HashProbePrime.cfg", workers=2, timeout=600)
+        if hp.rc != 0:
+            raise RuntimeError("HashProbe.tla: transcribed nearest_prime violates its contract")
+        hc = vlib.tlc("HashProbe", "HashProbeComposite.cfg", workers=4, timeout=600)
+        if hc.violated != "AnySizeCorrect":
+            raise RuntimeError("vacuity: HashProbe.tla accepts a composite table size")
+        r["distinct"] = (r.distinct or 0) + (h.distinct or 0)
+        r["generated"] = (r.generated or 0) + (h.generated or 0)
+        r["hashprobe_states"] = h.distinct
     return r
+
+
+def hashutil_binding(pid, work, tier):
+    """nearest_prime() of the real library against its transcription (Primes.tla) - the table size every
+    hash kind depends on."""
+    from checks import comp
+    exe = vlib.build_harness("comp", comp.COMP_SRCS, "plain")
+    _w, bad, nev, _f = comp.trace_section(exe, "hashutil", work, tier)
+    out = []
+    for b in bad:
+        out.append({"l": b["l"], "prog": "%s|HASH|-|nearest_prime|hashutil|built" % pid, "focus": "", "p": pid, "why": b["why"], "ev": b["ev"],
+                    "kind": "HASH", "origin": "built", "site": "", "cls": "", "during": ""})
+    return out, nev
 
 
 def run(pid, tier):
@@ -502,6 +594,10 @@ def run(pid, tier):
                 bad += b3
                 extra["perturb_%s_programs" % fill] = st3["programs"]
             bad += cross_process_digests(work, pid)
+        if pid in ("C01", "C02", "C12"):
+            hb, hn = hashutil_binding(pid, work, tier)
+            bad += hb
+            extra["nearest_prime_calls_validated"] = hn
         design = fut.result()
 
     rel = [b for b in bad if relevant(pid, b)]
